@@ -150,9 +150,15 @@ pub fn check_plain(st: &mut Stats, t: &str, w: usize) {
             return;
         }
     }
-    if is_plain(t) {
+    // escape sequences (only CSI ... m is generated) count as zero width in the plain wrapper too
+    let (t_stripped, _) = strip_sgr(t);
+    if is_plain(&t_stripped) {
+        if !is_plain(t) {
+            st.count("plain.with_escapes");
+        }
         for line in o.split('\n') {
-            let vis = line.trim_end_matches(' ');
+            let (line_vis, _) = strip_sgr(line);
+            let vis = line_vis.trim_end_matches(' ');
             if vis_width(vis) > w {
                 let body = vis.trim_start_matches(' ');
                 if body.contains(' ') {
@@ -295,7 +301,11 @@ pub fn gen_text(rng: &mut Rng, styled: bool) -> String {
         if styled && rng.chance(1, 4) {
             s.push_str(*rng.pick(&["\x1b[1m", "\x1b[0m", "\x1b[31;1m", "\x1b[38;5;196m", "\x1b[m"]));
         }
-        let wd = gen_word(rng);
+        let mut wd = gen_word(rng);
+        // (the letter that ends an SGR sequence, right behind one)
+        if styled && s.ends_with('m') && s.contains('\x1b') && rng.chance(1, 5) {
+            wd.insert(0, 'm');
+        }
         if styled && rng.chance(1, 8) && wd.chars().count() > 1 {
             let cs: Vec<char> = wd.chars().collect();
             let cut = rng.range(1, cs.len() - 1);
@@ -340,6 +350,8 @@ pub fn case(seed: u64, st: &mut Stats) {
     st.sample(|| format!("text={:?} width={} styled={}", t, w, styled));
     if styled {
         check_styled(st, &t, w);
+        // the same text through the plain wrapper (author slot)
+        check_plain(st, &t, w);
     } else {
         check_plain(st, &t, w);
         check_styled(st, &t, w);
